@@ -55,6 +55,7 @@ type twin struct {
 	o     *obs
 	extra []string
 	gitc  []string // `-c key=value` options every git command of the twin carries (user's one-shot settings)
+	stdin []byte   // input of the next command only
 }
 
 func slotPresent(c kase, slot string) bool {
@@ -94,7 +95,12 @@ func (t *twin) run(label string, sortLines bool, dropLines string, name string, 
 		args = append(append([]string{}, t.gitc...), args...)
 	}
 	full := append([]string{"-u", "GIT_ASKPASS", "-u", "SSH_ASKPASS", name}, args...)
-	res := t.env.Run(sbx.RunOpt{Dir: t.dir, Env: t.extra}, "env", full...)
+	opt := sbx.RunOpt{Dir: t.dir, Env: t.extra}
+	if t.stdin != nil {
+		opt.Stdin = bytes.NewReader(t.stdin)
+		t.stdin = nil
+	}
+	res := t.env.Run(opt, "env", full...)
 	out := t.norm(res.Stdout)
 	if dropLines != "" || sortLines {
 		var keep []string
@@ -170,6 +176,11 @@ esac
 exit 1
 `, root, srv.Host, t.s.Tag)
 	must(os.WriteFile(filepath.Join(root, "bin", "ssh"), []byte(ssh), 0o755))
+	// filter extensions the user may have configured (extension-priority cases): each marks every line it sees
+	for _, n := range extNames {
+		sc := fmt.Sprintf("#!/bin/sh\nexec sed 's/^/%s:/'\n", n)
+		must(os.WriteFile(filepath.Join(root, "bin", "ext-"+n), []byte(sc), 0o755))
+	}
 	t.extra = []string{"PATH=" + filepath.Join(root, "bin") + ":" + sbx.BinDir + ":/usr/local/bin:/usr/bin:/bin"}
 	// files an include directive could name
 	must(os.WriteFile(filepath.Join(root, "inc-abs.cfg"), []byte("[lfs]\n\turl = http://"+srv.Host+"/"+t.s.Tag+"/included-abs\n"), 0o644))
@@ -328,6 +339,11 @@ exit 1
 			t.run("ls-files", false, "", "git", "lfs", "ls-files")
 			t.run("status", false, ".lfsconfig", "git", "lfs", "status")
 		}
+	} else if c.ExtCmds {
+		t.run("env", true, "", "git", "lfs", "env")
+		t.run("ext-list", false, "", "git", "lfs", "ext", "list")
+		t.stdin = objNew
+		t.run("clean", false, "", "git", "lfs", "clean", "--", "data.bin")
 	} else if c.Light && bare {
 		t.run("env", true, "", "git", "lfs", "env")
 		t.run("fetch", false, "", "git", "lfs", "fetch", v.R1, "main")
